@@ -1,14 +1,32 @@
-import HLV.Model.Parse
+import HLV.Model.Check
 open HLV
 
-partial def loop (h : IO.FS.Stream) : IO Unit := do
+/-- `model`: case lines on stdin → model transcripts.
+    `check <Cxx>`: alternating lines (case, transcript) on stdin → `ok` / `fail <why>` per pair. -/
+partial def modelLoop (h : IO.FS.Stream) : IO Unit := do
   let line ← h.getLine
   if line.isEmpty then return ()
   let l := line.trimAscii.toString
-  if l.isEmpty then loop h else
+  if l.isEmpty then modelLoop h else
   match parseCase l with
   | some c => IO.println c.run
   | none => IO.println ("?;parse-error;" ++ l)
-  loop h
+  modelLoop h
 
-def main : IO Unit := do loop (← IO.getStdin)
+partial def checkLoop (prop : String) (h : IO.FS.Stream) : IO Unit := do
+  let l1 ← h.getLine
+  if l1.isEmpty then return ()
+  let l2 ← h.getLine
+  match parseCase l1.trimAscii.toString, parseTranscript l2.trimAscii.toString with
+  | some c, some t =>
+    match checkProp prop c t with
+    | none => IO.println "ok"
+    | some why => IO.println s!"fail {c.id} {why}"
+  | _, _ => IO.println s!"fail ? unparsable pair: {l1.trimAscii.toString} // {l2.trimAscii.toString}"
+  checkLoop prop h
+
+def main (args : List String) : IO Unit := do
+  let stdin ← IO.getStdin
+  match args with
+  | ["check", prop] => checkLoop prop stdin
+  | _ => modelLoop stdin
